@@ -22,6 +22,7 @@ var (
 	tNumArr = pt.ArrOf(pt.TNum)
 	tNumMap = pt.MapOf(pt.TNum)
 	tStrArr = pt.ArrOf(pt.TStr)
+	tAnyArr = pt.ArrOf(pt.TAny)
 )
 
 func (g *ExprGen) feasible(t *pt.Type, b int) bool {
@@ -96,12 +97,15 @@ func (g *ExprGen) prods(t *pt.Type) []pdesc {
 		add("dot", func(xs []pt.Expr) pt.Expr { return pt.Dot{X: xs[0], Key: "a"} }, tNumMap)
 		add("index-map", func(xs []pt.Expr) pt.Expr { return pt.Index{X: xs[0], I: xs[1]} }, tNumMap, s)
 		add("len-arr", func(xs []pt.Expr) pt.Expr { return pt.Call{Name: "len", Args: xs} }, tNumArr)
+		add("assert-num", func(xs []pt.Expr) pt.Expr { return pt.Assert{X: xs[0], T: pt.TNum} }, pt.TAny)
+		add("len-any", func(xs []pt.Expr) pt.Expr { return pt.Call{Name: "len", Args: xs} }, tAnyArr)
 		add("len-str", func(xs []pt.Expr) pt.Expr { return pt.Call{Name: "len", Args: xs} }, s)
 	case "string":
 		add("s+", bin("+"), s, s)
 		add("index-str", func(xs []pt.Expr) pt.Expr { return pt.Index{X: xs[0], I: xs[1]} }, s, n)
 		add("slice-str", func(xs []pt.Expr) pt.Expr { return pt.Slice{X: xs[0], Lo: xs[1], Hi: xs[2]} }, s, n, n)
 		add("slice-str-lo", func(xs []pt.Expr) pt.Expr { return pt.Slice{X: xs[0], Lo: xs[1]} }, s, n)
+		add("typeof", func(xs []pt.Expr) pt.Expr { return pt.Call{Name: "typeof", Args: xs} }, pt.TAny)
 	case "bool":
 		add("not", func(xs []pt.Expr) pt.Expr { return pt.Unary{Op: "!", X: xs[0]} }, b)
 		add("and", bin("and"), b, b)
@@ -116,7 +120,14 @@ func (g *ExprGen) prods(t *pt.Type) []pdesc {
 			add("b"+op, bin(op), b, b)
 			add("a"+op, bin(op), tNumArr, tNumArr)
 			add("m"+op, bin(op), tNumMap, tNumMap)
+			add("any"+op, bin(op), pt.TAny, pt.TAny)
+			add("anyarr"+op, bin(op), tAnyArr, tAnyArr)
 		}
+	case "any":
+		add("index-anyarr", func(xs []pt.Expr) pt.Expr { return pt.Index{X: xs[0], I: xs[1]} }, tAnyArr, n)
+	case "[]any":
+		add("anyarr+", bin("+"), tAnyArr, tAnyArr)
+		add("slice-anyarr", func(xs []pt.Expr) pt.Expr { return pt.Slice{X: xs[0], Lo: xs[1]} }, tAnyArr, n)
 	case "[]num":
 		add("a+", bin("+"), tNumArr, tNumArr)
 		add("a*", bin("*"), tNumArr, n)
@@ -283,6 +294,16 @@ func Prelude(used map[string]bool) []pt.Stmt {
 		if used[k] {
 			out = append(out, decl[k])
 		}
+	}
+	// any-typed variables: two separately built equal arrays, a num, a string, a map; an []any variable
+	anyVals := map[string]pt.Expr{"xn": pt.N(1), "xa": pt.A(pt.N(1), pt.N(2)), "xb": pt.A(pt.N(1), pt.N(2)), "xs": pt.S("a"), "xm": pt.M("k", pt.A(pt.N(1))), "xq": pt.M("k", pt.A(pt.N(1)))}
+	for _, k := range []string{"xa", "xb", "xm", "xn", "xq", "xs"} {
+		if used[k] {
+			out = append(out, pt.TypedDecl{Name: k, T: pt.TAny}, pt.Assign{Target: pt.V(k), X: anyVals[k]})
+		}
+	}
+	if used["ya"] {
+		out = append(out, pt.TypedDecl{Name: "ya", T: tAnyArr}, pt.Assign{Target: pt.V("ya"), X: pt.A(pt.N(1), pt.A(pt.N(1), pt.N(2)))})
 	}
 	return out
 }
